@@ -258,10 +258,21 @@ def run_check(pid, tier, seed, only=None, keep=False):
                 confirm_kani_failure(pid, h["_srepo"], h, rec)
     except Undecided as e:
         log("UNDECIDED: %s" % e)
-        write_evidence(ev, pid, tier, seed, per, functions, inj, verus_report, pinfo, t0, [], [{"id": "engine", "detail": str(e)}], known_lines)
         if not keep:
             for sc in scratch_dirs:
                 vlib.remove_scratch(sc)
+        if violations:
+            # part of the check could not run, but an obligation that did run already failed: report it
+            write_evidence(ev, pid, tier, seed, per, functions, inj, verus_report, pinfo, t0, violations, [{"id": "engine", "detail": str(e)[:2000]}], known_lines)
+            for l in known_lines:
+                print(l)
+            for rec in violations:
+                line = "VIOLATION property=%s replay=%s" % (pid, rec.get("replay_file", "none"))
+                if not rec.get("native_confirmed"):
+                    line += " obligation=%s no-failing-input-found" % re.sub(r"\s+", "_", rec["id"])
+                print(line)
+            return 1
+        write_evidence(ev, pid, tier, seed, per, functions, inj, verus_report, pinfo, t0, [], [{"id": "engine", "detail": str(e)}], known_lines)
         return 2
     finally:
         pass
@@ -319,7 +330,8 @@ def confirm_kani_failure(pid, srepo, h, rec):
         outs_v = []
         for tg in targets:
             try:
-                ts_, r = vlib.kani_counterexample(srepo, h["pkg"], tg, timeout_s=240, tests=bool(h.get("tests")), features=h.get("features"))
+                ts_, r = vlib.kani_counterexample(srepo, h["pkg"] if h["pkg"] != "bevy_extract" else None, tg, timeout_s=420, tests=bool(h.get("tests")),
+                                                  features=h.get("features"), flags=tuple(h.get("flags") or ()))
                 tests += ts_
                 outs_v.append(r["stdout"][-3000:])
             except Undecided as e:
@@ -329,7 +341,7 @@ def confirm_kani_failure(pid, srepo, h, rec):
         payload["concrete_playback_tests"] = tests
         outs = []
         for t in tests[:3]:
-            failed, out = vlib.native_replay(srepo, h["pkg"], h["file"], t, tests=bool(h.get("tests")))
+            failed, out = vlib.native_replay(srepo, h["pkg"] if h["pkg"] != "bevy_extract" else None, h["file"], t, tests=bool(h.get("tests")))
             outs.append({"native_failed": failed, "output": out[-3000:]})
             if failed:
                 confirmed = True
